@@ -42,6 +42,11 @@ var propConfigs = map[string]*propConfig{
 		"transient fields by declaration: Conproc.CpID, Conproc.SharedHDLOps, Arch.Tag (assigned by the HDL writer before use)",
 		"not decided: 'simulates identically / regenerates byte-identical Verilog' (follows only if those depend on persisted fields alone), the textual round trip of shared objects (Shared_instance.String / Shared_element.Instantiate are trusted to be inverse), EventuallyCreateInstruction (trusted contract: it keeps registered opcodes in place and does not append when the name is already registered), encoding/json itself",
 	}},
+	"C14": {pkgs: []string{"./pkg/bmmatrix"}, extra: c14Canary, notes: []string{
+		"decided (discrete kernel only): bmmatrix.SwapRowsColsComplex is exact data movement, result[i][j] == a[tau(i)][tau(j)] for the transposition tau=(x y), for well-formed square matrices of any size, leaving its argument untouched; NewBmMatrixSquareComplex returns a fresh, zeroed, well-formed matrix whose rows do not share storage; IdentityComplex is the identity pattern (float32 values are opaque: no floating-point arithmetic is interpreted)",
+		"not decided: that the emitted matrices multiply to the circuit's unitary and are unitary within tolerance (nonlinear float32 arithmetic is outside this family), swaps2baseSwaps (64-bit bit manipulation and a map; no bit-vector mode in the engine), BmMatrixFromOperation's argument reordering, QasmToBmMatrices' layering, RunSoftwareSimulation",
+		"known finding F3 (two two-qubit gates on interleaved qubits in one layer compile to the matrix of the adjacent circuit) is re-observed on every run by replaying its recorded circuit on the real compiler; that replay is a test of one input, not a proof",
+	}},
 	"C15": {pkgs: []string{"./pkg/simbox", "./pkg/bondmachine", "./pkg/procbuilder"}, notes: []string{
 		"decided: Simbox.Add appends exactly one, not suspended, rule or leaves the list untouched; Del/Suspend/Reactivate have exactly their stated effect and change nothing else; bondmachine.SimConfig.Init and procbuilder.SimConfig.Init set an option iff it was already set or some not-suspended configuration rule names it (a suspended rule has no effect on the configuration)",
 		"not decided: the print/parse round trip of rules (Rule.String against Add needs a theory of strings.Split over concatenations that the uninterpreted string model does not have), SimDrive.Init/SimReport.Init (store and compare *interface{} pointers; outside the subset) and the per-tick injection/report semantics",
@@ -89,6 +94,7 @@ type checkRun struct {
 	excluded  []string
 	matchers  []matcherInfo
 	knownObls map[string]bool
+	canaries  []string // known findings observed by replaying their recorded failing input (no obligation expresses them)
 	start     time.Time
 }
 
@@ -368,6 +374,13 @@ func (c *checkRun) report(cfg *propConfig) {
 			continue // already reported through the function
 		}
 		add(m, "expected obligation was not generated on this tree (function or contract clause gone)", nil)
+	}
+	for _, name := range c.canaries {
+		if k := isKnown(name); k != nil {
+			knownSeen[k.Obligation] = k
+		} else {
+			add(name, "replay of a recorded failing input still fails and the finding is not listed", nil)
+		}
 	}
 	for _, k := range sortedKeys(knownSeen) {
 		fmt.Printf("KNOWN-FINDING: property=%s %s — %s\n", c.prop, k, knownSeen[k].What)
